@@ -8,11 +8,12 @@
 // the WHERE clauses). Cases where DuckDB rejects the original are not judged.
 //
 // Files: main.go (driver, DuckDB workers), time.go (time_bucket/date_trunc grid), url.go (URL-domain
-// regex grid), like.go (LIKE / <> '' predicate grid).
+// regex grid), like.go (LIKE / <> ” predicate grid).
 package main
 
 import (
 	"database/sql"
+	"encoding/json"
 	"fmt"
 	"os"
 	"sort"
@@ -41,10 +42,16 @@ const nWorkers = 12
 
 type worker struct{ db *sql.DB }
 
+var perRowFallbacks int64
+var rejectClasses sync.Map // error class of rejected originals -> *int64
+
+var rejectMu sync.Mutex
+var rejectExample = map[string]string{} // error class -> lexicographically smallest rejected original
+
 var setupSQL []string // filled by the sections before the workers start
 
 func newWorker() *worker {
-	db, err := sql.Open("duckdb", "")
+	db, err := sql.Open("duckdb", "?threads=1")
 	if err != nil {
 		ev.Unbound("cannot open DuckDB: " + err.Error())
 	}
@@ -140,6 +147,7 @@ func (w *worker) rowsOf(q string, n int) ([]cell, error) {
 // perRow evaluates a projection statement one row at a time (used when the whole-table run failed, so
 // that one failing row does not hide the others). The statement must end in " ORDER BY i".
 func (w *worker) perRow(q string, n int) []cell {
+	atomic.AddInt64(&perRowFallbacks, 1)
 	out := make([]cell, n)
 	base := strings.TrimSuffix(q, " ORDER BY i")
 	for i := 0; i < n; i++ {
@@ -190,6 +198,13 @@ func (w *worker) evaluate(q string, n int, projection bool) *outcome {
 	if err != nil {
 		// static rejections (binder/parser/catalog) hold for every row; only data-dependent errors are retried per row
 		if !projection || staticError(err) {
+			n, _ := rejectClasses.LoadOrStore(errClass(err), new(int64))
+			atomic.AddInt64(n.(*int64), 1)
+			rejectMu.Lock()
+			if cur, ok := rejectExample[errClass(err)]; !ok || q < cur {
+				rejectExample[errClass(err)] = q
+			}
+			rejectMu.Unlock()
 			o.Orig = nil
 			return o
 		}
@@ -246,9 +261,9 @@ func forAll(run *ev.Run, ws []*worker, n int, f func(w *worker, k int)) bool {
 // stats shared by the sections
 type stats struct {
 	Cases, Fired, NotAccepted, Judged int64 // statements
-	Pairs, DiffPairs                   int64 // (statement,row) comparisons
-	distinctRew                        sync.Map
-	DistinctRewrites                   int64
+	Pairs, DiffPairs                  int64 // (statement,row) comparisons
+	distinctRew                       sync.Map
+	DistinctRewrites                  int64
 }
 
 func (s *stats) account(o *outcome) {
@@ -286,15 +301,17 @@ func main() {
 	run := ev.Start("C17", "exploration")
 	quick := run.Quick()
 	t0 := time.Now()
-	scratch := fmt.Sprintf("/dev/shm/verif.c17.%d", os.Getpid())
-	os.MkdirAll(scratch, 0o755)
-	defer os.RemoveAll(scratch)
+	// no scratch files: every DuckDB instance is in-memory
 
 	// binding sanity: the accessors must reach rewrites that still fire on their documented forms
 	if pipeline("SELECT time_bucket(INTERVAL '1 hour', time) FROM g") == "SELECT time_bucket(INTERVAL '1 hour', time) FROM g" ||
 		pipeline("SELECT date_trunc('hour', time) FROM g") == "SELECT date_trunc('hour', time) FROM g" {
-		os.RemoveAll(scratch)
 		ev.Unbound("rewriteTimeBucket/rewriteDateTrunc no longer rewrite their documented forms")
+	}
+
+	if run.Replay != "" {
+		replay(run)
+		return
 	}
 
 	tg := newTimeGrid(quick)
@@ -348,11 +365,15 @@ func main() {
 		"non-trivial = a statement whose text the rewrite changed and whose original DuckDB accepts (unchanged statements are trivial and only counted); distinct by original statement text (every grid point renders a different statement)"
 	run.Coverage["samples"] = samples.List()
 	run.Coverage["exhaustive"] = exhaustive
+	run.Coverage["per_row_fallback_statements"] = perRowFallbacks
+	rej := map[string]int64{}
+	rejectClasses.Range(func(k, v any) bool { rej[k.(string)] = *v.(*int64); return true })
+	run.Coverage["original_rejected_by_error_class"] = rej
+	run.Coverage["original_rejected_example"] = rejectExample
 	run.Assume("DuckDB (the version linked into Arc, session TimeZone=UTC as on a UTC server; Arc never sets TimeZone) evaluating the original statement is the ground truth")
 	run.Assume("timestamps are compared as instants (epoch_us); the change of result type TIMESTAMP -> TIMESTAMP WITH TIME ZONE made by to_timestamp() is recorded in coverage but not judged")
 	run.Assume("statements DuckDB rejects in their original form, and statements the rewrite leaves textually unchanged (months, nested calls, non-matching patterns), are counted but not judged")
 	run.Assume("inputs outside the stated grids (other interval amounts/units, other URL shapes and regex patterns, string literals containing SQL keywords, more than the stated nesting) are not covered")
-	os.RemoveAll(scratch)
 	run.Finish()
 }
 
@@ -369,4 +390,39 @@ type section interface {
 	classes() []violation
 	coverage() map[string]any
 	st() *stats
+}
+
+// replay re-runs one recorded counterexample in isolation: the standalone original statement is rewritten
+// afresh by the current code and both forms are evaluated on its single inline row.
+func replay(run *ev.Run) {
+	b, err := os.ReadFile(run.Replay)
+	if err != nil {
+		ev.Unbound("cannot read replay file: " + err.Error())
+	}
+	var f struct {
+		Signature string `json:"signature"`
+		Replay    struct {
+			SQL string `json:"standalone_original_sql"`
+		} `json:"replay"`
+	}
+	if err := json.Unmarshal(b, &f); err != nil || f.Replay.SQL == "" {
+		ev.Unbound("replay file has no standalone_original_sql")
+	}
+	w := newWorker()
+	projection := !strings.HasPrefix(f.Replay.SQL, "SELECT i FROM")
+	o := w.evaluate(f.Replay.SQL, 1, projection)
+	fmt.Printf("original : %s\nrewritten: %s\n", f.Replay.SQL, o.Rewrite)
+	switch {
+	case !o.Fired:
+		fmt.Println("the rewrite no longer fires on this statement")
+	case !o.Accepted:
+		fmt.Println("DuckDB rejects the original statement")
+	default:
+		fmt.Printf("duckdb(original)=%s duckdb(rewritten)=%s\n", o.Orig[0], o.Rew[0])
+		if o.differs(0) {
+			run.Violate(f.Signature, "replayed counterexample still differs: original "+o.Orig[0].String()+" rewritten "+o.Rew[0].String(), map[string]any{"standalone_original_sql": f.Replay.SQL})
+		}
+	}
+	run.Coverage["evaluations"] = 1
+	run.Finish()
 }
